@@ -240,5 +240,9 @@ fn main() {
         o.class("unmutated")
     });
     check.explore("mutated", strat, 20_000, 300_000, judge);
+    if !check.is_replay() {
+        // evidence only: parse time doubles per nested index bracket (see vplsrc::MAX_INDEX_NEST)
+        check.extra("nesting_profile_ms_not_judged", nesting_profile());
+    }
     check.finish();
 }
